@@ -12,6 +12,7 @@ import (
 	"hash/fnv"
 	"os"
 	"path/filepath"
+	"runtime"
 	"sort"
 	"strconv"
 	"strings"
@@ -321,4 +322,42 @@ func JournalDone(property, test string) {
 
 func journalPath(dir, property, test string) string {
 	return filepath.Join(dir, fmt.Sprintf("%s-%s-s%s.current.json", property, test, os.Getenv("VERIF_SHARD")))
+}
+
+// BlockedInLibrary returns the stacks of the goroutines which are blocked
+// (mutex, channel, select, condition) inside the library under test, shortened
+// to their top frames: the evidence that goes with a "did not return within"
+// verdict.
+func BlockedInLibrary() string {
+	buf := make([]byte, 8<<20)
+	n := runtime.Stack(buf, true)
+	out, count, idle := "", 0, 0
+	for _, g := range strings.Split(string(buf[:n]), "\n\n") {
+		if !strings.Contains(g, "github.com/lugu/qiloop/") {
+			continue
+		}
+		head := strings.SplitN(g, "\n", 2)[0]
+		blocked := false
+		for _, st := range []string{"semacquire", "chan send", "chan receive", "select", "sync.Cond", "sync.Mutex", "sync.RWMutex"} {
+			if strings.Contains(head, st) {
+				blocked = true
+			}
+		}
+		if !blocked || strings.Contains(head, "IO wait") {
+			continue
+		}
+		if lines := strings.Split(g, "\n"); len(lines) > 1 && strings.Contains(lines[1], "bus.NewMailBox.func1") && strings.Contains(head, "chan receive") {
+			idle++ // an idle object mailbox (the library keeps them for ever)
+			continue
+		}
+		lines := strings.Split(g, "\n")
+		if len(lines) > 13 {
+			lines = lines[:13]
+		}
+		count++
+		if count <= 12 {
+			out += strings.Join(lines, "\n") + "\n\n"
+		}
+	}
+	return fmt.Sprintf("%d goroutines blocked inside the library (and %d idle object mailboxes):\n%s", count, idle, out)
 }
